@@ -100,7 +100,7 @@ CLAIMED["C06"] = C("for ALL token strings up to the bound: acceptance by the rea
                    "modelled by the chart rules (validated, not executed symbolically); grouping facts the property does not spell out are not demanded.",
                    LRC + " + CFG chart with operator-table filters", "DESIGN §4, §6 C06", engine="LRC")
 LXC = "SMT encoding (z3) of the lexer's master regex over symbolic character classes"
-for k, extra in (("C15", " Character level (LXC): inserting a blank / a CR before LF changes no earlier raw match, for all texts up to W characters. Text templates: 12 programs x 13 layout rewrites on the real lexer+parser (indices enumerated through the solver)."),
+for k, extra in (("C15", " Character level (LXC): inserting a blank / a CR before LF changes no earlier raw match, for all texts up to W characters. Text templates: 20 programs x 18 layout rewrites (sites located with the independent tokeniser) on the real lexer+parser (indices enumerated through the solver)."),
                  ("C18", " Character level (LXC): %..% names run to the next %, plain names are maximal, for all texts up to W characters."),
                  ("C20", " Character level (LXC): every line feed is consumed by the NEWLINE rule alone and no other token contains one. Text templates: stray token / truncation at every token boundary under LF, CRLF and ; variants.")):
     CLAIMED[k]["text"] += extra
@@ -112,6 +112,29 @@ for k, extra in (("C15", " Token level (LRC): acceptance invariance of trailing 
     CLAIMED[k]["text"] += extra
     CLAIMED[k]["engine"] = CLAIMED[k].get("engine", "XH") + "+LRC"
     CLAIMED[k]["technique"] += "; " + LRC
+# additions of the later rounds (DESIGN §11.8 - §11.10); the evidence files list every obligation
+for k, extra in (
+    ("C01", " Also: host callbacks that re-enter eval (nested eval may fail and be swallowed), second evaluation of the same cached tree, reads of recording host rows bounded by the budget (every lambda-body evaluation is an operation whatever its shape)."),
+    ("C02", " Also: every builtin with option-like surplus arguments, an audit hook (open / import / exec / socket / subprocess events) armed around each builtin call and around failing and unusual-but-legal programs."),
+    ("C03", " Also: every builtin with surplus arguments on a list near the cap, every builtin on two / three real containers, the cap after earlier evaluations over over-long host data."),
+    ("C04", " Also: 18 whole programs through lexer + parser + evaluator (parse-time shortcuts), powers of host ints beyond the decimal exponent range."),
+    ("C05", " Also: sequences of four calls where the engine refuses or times out in earlier ones; Python lines executed in functions.py around the engine call (sys.monitoring, engine stubbed) bounded by 3000 + 4 * (len(pattern) + len(subject)) for lengths up to 10**5."),
+    ("C06", " Text level: 20 programs damaged at every token boundary by 37 stray texts - whatever the real parser accepts must be accepted by an independent tokeniser + Earley recogniser over spec/grammar_ref.json (spec/reflang.py)."),
+    ("C07", " Also: operators on the Python ints builtins hand out (result types), equal keys of different scale with the real functools caches, pretty on numbers."),
+    ("C08", " Also: comparisons where an operand is the result of an operation, numeric builtins (round incl. negative places, floor, ceil, abs, int, sum, min, max) on literal expressions vs exact rationals."),
+    ("C09", " Failing children raise four exception kinds (identity of the raised object compared); membership, dict-literal, multiplication and unresolved-name templates."),
+    ("C10", " Also: lambda calls that bind nothing, non-callable bindings in call position, top-level assignments with ast_names."),
+    ("C11", " Also: the same text again through both entry points, names mappings kept by the host across evaluations (lambdas returning literals), process-global state (decimal context) after every history."),
+    ("C12", " Also: empty containers, self-referential stores, the same statement evaluated twice (with / without parse cache) with host mutation in between."),
+    ("C13", " Also: lists of strings / mixed lists in every argument position of every non-mutator; pipelines whose lambdas concatenate and pipelines that keep results in variables."),
+    ("C14", " Also: None / empty / false values, equal numbers of different classes (literal Decimal, computed Decimal, host int / bool)."),
+    ("C16", " Listed failures MUST fail (also inside lambdas driven by sorted / map / filter / reduce); damaged texts parsed twice by a parser with a cache."),
+    ("C17", " Also: pairs of texts (near-duplicates, failing texts with open brackets followed by multi-line texts, very deep texts), every string key left in the host's mapping must behave as a source text, LambdaOp node unchanged by closure calls nesting up to 260 deep."),
+    ("C18", " Also: exact listings for identifiers that start / end like keywords, after failed calls on the same parser; listings and lookups with a parse cache after near-duplicate / identical texts."),
+    ("C19", " Also: concrete draws on negative / mixed-sign ranges, lists around and beyond the 10000-element cap."),
+    ("C20", " The offending token is determined independently (raw lexer tokens recorded under the parse, LR tables driven by a plain loop); the message must show the token as WRITTEN in the source."),
+):
+    CLAIMED[k]["text"] += extra
 NOT_YET = {}
 NA = {}
 
